@@ -116,7 +116,7 @@ fn cases() -> Vec<ConfCase> {
                     for s in 0..SHAPES.len() {
                         v.push(ConfCase { depth, rel, entry, shell, shape: Some(s), exit: 0 });
                     }
-                    for exit in [0, 1, 7] {
+                    for exit in [0, 1, 7, -9] {
                         v.push(ConfCase { depth, rel, entry, shell, shape: None, exit });
                     }
                 }
@@ -150,6 +150,8 @@ fn run_case(rep: &Report, c: &ConfCase) {
             t.push_str("END\n");
             t
         }
+        // a negative "exit code" means: the shell process kills itself with that signal
+        None if c.exit < 0 => format!("before\n-TXTPP#run printf partial; kill -{} $$\nafter\n", -c.exit),
         None => format!("before\n-TXTPP#run exit {}\nafter\n", c.exit),
     };
     std::fs::write(&src, &text).unwrap();
@@ -185,7 +187,7 @@ fn run_case(rep: &Report, c: &ConfCase) {
             if verdict_ok != expected_ok {
                 rep.violate(
                     "exit-status",
-                    format!("{:?}: the shell process exits {} but the build {}", c, if expected_ok { 0 } else { c.exit }, if verdict_ok { "succeeded" } else { "failed" }),
+                    format!("{:?}: the shell process {} but the build {}", c, if expected_ok { "exits 0".to_string() } else if c.exit < 0 { format!("is killed by signal {}", -c.exit) } else { format!("exits {}", c.exit) }, if verdict_ok { "succeeded" } else { "failed" }),
                     case_json(c),
                 );
             }
@@ -276,7 +278,7 @@ pub fn run_c17(tier: &str) -> i32 {
     let rep = Report::new("C17", tier);
     let cs = cases();
     rep.set("cases_planned", json!(cs.len()));
-    rep.set("bounds", json!("depth 0..3 x {library x 4 base/cwd relations, CLI x cwd=base} x 3 shells x (3 command shapes + 3 exit codes); TXTPP_FILE guard in 4 modes; a source that calls txtpp"));
+    rep.set("bounds", json!("depth 0..3 x {library x 4 base/cwd relations, CLI x cwd=base} x 3 shells x (3 command shapes + exit codes 0/1/7 + death by SIGKILL); TXTPP_FILE guard in 4 modes; a source that calls txtpp"));
     rep.assume("TXTPP_FILE 'designates' the source if it resolves to it as an absolute path, relative to the base directory or relative to the command's directory (Q5)");
     rep.st(4 * 4 * 3);
     sharded_dyn(&rep, par_threads(), |k, _n, next, rep| {
